@@ -632,6 +632,21 @@ fn gen_c09(tier: &str, rng: &mut Rng, emit: &mut dyn FnMut(Op)) {
     let bom = "BUILD_DATE=\u{feff}d\nCATEGORIES=c\nCOMMENT=caf\u{e9} \u{feff}tool\nDESCRIPTION=\u{feff}\nMACHINE_ARCH=x\nOPSYS=x\nOS_VERSION=x\nPKGNAME=a-1\nPKGPATH=a/b\nPKGTOOLS_VERSION=1\nSIZE_PKG=1\nSUPERSEDES=old-[0-9]* \nSUPERSEDES=older<1 \t\u{3000}\n\n";
     let bom2 = format!("{}{}", bom, small);
     partitions(rng, bom2.as_bytes(), thorough, emit);
+    // a size that is not exactly a decimal integer makes its record malformed: every padded or
+    // signed spelling, in a record of its own between two good ones (deterministic)
+    {
+        let base = "BUILD_DATE=d\nCATEGORIES=c\nCOMMENT=x\nDESCRIPTION=x\nMACHINE_ARCH=x\nOPSYS=x\nOS_VERSION=x\nPKGNAME=a-1\nPKGPATH=a/b\nPKGTOOLS_VERSION=1\n";
+        let goodrec = format!("{}SIZE_PKG=1\n\n", base);
+        for (var, other) in [("FILE_SIZE", "SIZE_PKG=1\n"), ("SIZE_PKG", "")] {
+            for bad in [" 1234", "1234 ", "\t7", "7\t", "-", "+", "1_000", "\u{a0}5", "5\u{a0}", " ", "0x10", "1e3", "12 34"] {
+                let rec = format!("{}{}{}={}\n\n", base, other, var, bad);
+                let s = format!("{}{}{}", goodrec, rec, goodrec);
+                emit_stream(emit, &[s.as_bytes()]);
+                let chunks: Vec<&[u8]> = s.as_bytes().chunks(7).collect();
+                emit_stream(emit, &chunks);
+            }
+        }
+    }
     // malformed streams: one bad entry at each position, every kind of fault
     let good = |rng: &mut Rng| -> String { format!("{}\n", entry_text(rng, false)) };
     let faults: Vec<Box<dyn Fn(&mut Rng) -> Vec<u8>>> = vec![
